@@ -459,7 +459,7 @@ COMMON_ASSUMPTIONS = [
 ASSUMPTIONS = {}
 RULES = {
     "C11": "world = (global rectangular integer-valued matrices A (n x m), B (m x k), R = 1..8 simulated ranks, contiguous row/column partitions drawn from all compositions incl. empty ranks, nt per rank, delivery faults late_send_read / recv_poison / rendezvous, schedule incl. a stalled rank, shuffled Waitall order); every rank runs: construction from strips, transpose, product, scale+sort_rows, copy into a float backend, Gershgorin and power estimates, spmv with beta=0 into NaN and repeated spmv on the same object, residual, inner product; results are assembled in harness memory and compared exactly with the serial kernels; non-trivial = R>=2 and >=1 message; distinct by hash(matrices, partitions, fault switches, schedule deviations); square matrices conformal or with independent column distribution; scaled Gershgorin / scaled power estimate; keep_src history (move_to_backend(keep_src), then transpose / product / copy / spmv of the same object)",
-    "C12": "world = (SPD M-matrix n 20..900, R = 1..8 simulated ranks, contiguous row distribution incl. empty ranks, mpi::amg through the run-time wrappers: coarsening aggregation|smoothed_aggregation (PMIS), 9 relaxations, 8 solvers, skyline_lu direct solver, merge repartitioner on/off with small min_per_proc, coarse_enough 2..40, delivery faults and schedules as in C11); oracles: no deadlock (every rank terminates), identical (iterations, residual) bits on all ranks, gathered solution has the reported true global residual, Krylov solvers reach 1e-8 in 200 iterations and Richardson does not diverge; non-trivial = R>=2 and >=1 message; distinct by hash(matrix, partition, configuration, fault switches, schedule deviations); 30% of the worlds run mpi::subdomain_deflation (1-2 deflation vectors) or mpi::block_preconditioner (local AMG or smoother) instead of mpi::amg; 35% of the plain-aggregation worlds supply 1-3 near-null-space vectors (2-3 level hierarchies, repartitioning off) and check P*(P^T*B) = B chained over the levels; 30% vary cycle / component parameters (no convergence clause there)",
+    "C12": "world = (SPD M-matrix n 20..900, R = 1..8 simulated ranks, contiguous row distribution incl. empty ranks, mpi::amg through the run-time wrappers: coarsening aggregation|smoothed_aggregation (PMIS), 9 relaxations, 8 solvers, skyline_lu direct solver, merge repartitioner on/off with small min_per_proc, coarse_enough 2..40, delivery faults and schedules as in C11); oracles: no deadlock (every rank terminates), identical (iterations, residual) bits on all ranks, gathered solution has the reported true global residual, Krylov solvers reach 1e-8 in 200 iterations and Richardson does not diverge; non-trivial = R>=2 and >=1 message; distinct by hash(matrix, partition, configuration, fault switches, schedule deviations); 8% of the worlds run the distributed direct solver alone (exact against a dense LU of the gathered system); 30% of the worlds run mpi::subdomain_deflation (1-2 deflation vectors) or mpi::block_preconditioner (local AMG or smoother) instead of mpi::amg; 35% of the plain-aggregation worlds supply 1-3 near-null-space vectors (2-3 level hierarchies, repartitioning off) and check P*(P^T*B) = B chained over the levels; 30% vary cycle / component parameters (no convergence clause there)",
     "C01": "case = one coupled solve (4 coarsenings x 9 relaxations x 8 solvers x preconditioning side through the run-time interface, tolerances 1e-3..1e-9, budgets 1..100, restart/L/s parameters, zero/random/large initial guess) in a simulated world (nt 1..32, seeded schedule, dirtied heap, optional warm-up solve on the same object); oracle: independent long-double residual of the returned x from the caller's arrays (preconditioned with the same object for left preconditioning) vs the reported one, iteration budget, non-finite outcomes reported as such; 45% of the cases are the narrow model family (isotropic grid diffusion, contrast <= 8, forced multilevel, default parameters) where every Krylov combination must reach 1e-8 in < 100 iterations and Richardson must converge; non-trivial = >=1 iteration; distinct by hash(matrix, configuration, nt, seeds); a fifth of the non-model cases are complex (Hermitian or not) or 2x2 block valued systems, half of them vary further component parameters by seed (varied_parameter_worlds)",
     "C02": "case = (SPD M-matrix from grid1d/2d/3d or random graph, n 8..300, coarsening x relaxation through the run-time interface, ncycle 1|2, npre=npost 1..3, pre_cycles 1|2, coarse_enough, max_levels, direct_coarse, nt, schedule); B is extracted by n applications to unit vectors in shuffled order interleaved with applications to random / 1e200 / zero / NaN / Inf vectors, then every column once more; oracles: both extractions bitwise equal, linearity on random pairs, B(2^k A) = 2^-k B(A) bitwise (not ILUT), and for symmetric smoothers B=B^T, lambda_min(B)>0, rho(I-BA)<1 by Eigen; non-trivial = >=2 levels and n>=8; distinct by hash(matrix, configuration, application order seed)",
     "C06": "case = (smoother in damped_jacobi|gauss_seidel|spai0|spai1|chebyshev|ilu0|iluk|ilup|ilut with drawn parameters, matrix: M-matrix / convection-diffusion / structurally non-symmetric / disconnected / positive off-diagonal family or tridiagonal / arrow, rows sorted or diagonal-first, scalar or 2x2 non-commuting block values, nt 1..32 (>=4 takes the level-scheduled paths), schedule); each case runs under two schedules; oracles: parallel level-scheduled solve == serial (bitwise for Gauss-Seidel, rounding for ILU), schedule independence, exact solution is a fixed point, closed formulas (Jacobi, Gauss-Seidel forward/backward, SPAI-0), (LU)_ij = a_ij on the pattern of A via extracted M (n<=40, Eigen), exact inverse on tridiagonal/arrow and for ILU(k>n), (LU)_ij = a_ij on the symbolic pattern of A^(k+1) for ILUP, SPAI-1 normal equations and pattern, Chebyshev sweep affine about the solution and equal to the degree-d Chebyshev polynomial q(A) e for the Gershgorin interval [lower*hi, higher*hi] (dense matrix recurrence, n<=48, scaled and unscaled), apply() of every smoother equals the sweep(s) from x = 0 (without the damping for Jacobi / ILU); non-trivial = n>=3; distinct by hash(matrix, smoother, parameters, nt)",
